@@ -75,10 +75,9 @@ def _minimise_job(args):
     try:
         mops, mknobs, runs = S.minimise(prop, seed, ops, knobs, klass, budget)
         if mops is None:
-            return dict(ok=False, why="does not reproduce in-process")
-        sess = S.replay_ops(prop, seed, mops, mknobs, stop_at_class=klass)
-        v = [x for x in sess.violations if x.klass() == klass][0]
-        return dict(ok=True, ops=jsonable(mops), knobs=jsonable(mknobs), v=v.to_json(), digest=sess.trace_digest(), runs=runs, n0=len(ops))
+            # not reproducible from a clean process state: hand the unminimised trace to the fresh-interpreter replay
+            return dict(ok=True, ops=jsonable(ops), knobs=jsonable(knobs), v=None, digest=None, runs=0, n0=len(ops), unminimised=True)
+        return dict(ok=True, ops=jsonable(mops), knobs=jsonable(mknobs), v=None, digest=None, runs=runs, n0=len(ops))
     except Exception as e:  # noqa
         return dict(ok=False, why=f"{type(e).__name__}: {e}\n{traceback.format_exc()[-1500:]}")
 
@@ -200,21 +199,31 @@ def triage(prop, tier, base_seed, recs, jobs, log=print):
                 done = True
                 break
             ops, knobs = unjson(res["ops"]), unjson(res["knobs"])
-            k = match_known(known, prop, res["v"], ops, knobs)
+            # The fresh interpreter is the judge: the replay file is written, replayed twice in fresh processes, and
+            # reported only if both runs show the violation class with one and the same trace digest.
+            d8 = hashlib.sha256(json.dumps(res["ops"], sort_keys=True).encode()).hexdigest()[:8]
+            path = os.path.join(VERIF_DIR, "replays", f"{prop}-{r['seed']}-{d8}.json")
+            v0 = r["violation"]["v"]
+            v = Violation(klass[0], klass[1], klass[2], v0["step"], v0["message"])
+            S.write_replay(path, prop, r["seed"], tier, knobs, ops, v, None, res["n0"])
+            fr = fresh_replay(path)
+            fr2 = fresh_replay(path) if fr.get("reproduced") else {}
+            if not (fr.get("reproduced") and fr2.get("reproduced") and fr.get("digest") == fr2.get("digest")):
+                unrepro.append(dict(klass=klass, seed=r["seed"], why="fresh-interpreter replays do not reproduce the violation identically",
+                                    detail=[fr, fr2], path=path))
+                done = True
+                break
+            vj = fr["violation"]
+            k = match_known(known, prop, vj, ops, knobs)
             if k is not None:
                 n_known += 1
                 last_known = k
                 known_hits[k["id"]] = known_hits.get(k["id"], 0) + 1
+                os.remove(path)
                 continue
-            d8 = hashlib.sha256(json.dumps(res["ops"], sort_keys=True).encode()).hexdigest()[:8]
-            path = os.path.join(VERIF_DIR, "replays", f"{prop}-{r['seed']}-{d8}.json")
-            v = Violation(res["v"]["property"], res["v"]["invariant"], res["v"]["op"], res["v"]["step"], res["v"]["message"])
-            S.write_replay(path, prop, r["seed"], tier, knobs, ops, v, res["digest"], res["n0"])
-            fr = fresh_replay(path)
-            if fr.get("reproduced") and fr.get("digest") == res["digest"]:
-                reported.append(dict(path=path, klass=klass, sessions=len(rs), v=res["v"], n_ops=len(ops)))
-            else:
-                unrepro.append(dict(klass=klass, seed=r["seed"], why="fresh-interpreter replay differs", detail=fr, path=path))
+            v = Violation(vj["property"], vj["invariant"], vj["op"], vj["step"], vj["message"])
+            S.write_replay(path, prop, r["seed"], tier, knobs, ops, v, fr["digest"], res["n0"])
+            reported.append(dict(path=path, klass=klass, sessions=len(rs), v=vj, n_ops=len(ops)))
             done = True
             break
         if not done and last_known is not None and len(rs) > n_known:
